@@ -480,12 +480,14 @@ func c10Strace(c *Ctx) error {
 			if in.pre == "sentinel" {
 				_ = work.WriteFile(out, []byte(sentinel))
 			}
-			path := filepath.Join(dir, "a.yaml")
+			// the path is selected the way the tool names it (relative to its working directory) and by its absolute name
+			rel := "a.yaml"
 			if in.what == "output" {
-				path = out
+				rel = "out.go"
 			}
+			path := filepath.Join(dir, rel)
 			before := work.StatFile(out)
-			args := []string{"-f", "-qq", "-o", "/dev/null", "-P", path, "-e", "trace=" + in.syscall, "-e", fmt.Sprintf("inject=%s:error=%s:when=%d", in.syscall, in.errno, in.when),
+			args := []string{"-f", "-qq", "-o", "/dev/null", "-P", rel, "-P", path, "-e", "trace=" + in.syscall, "-e", fmt.Sprintf("inject=%s:error=%s:when=%d", in.syscall, in.errno, in.when),
 				w.Bin, "build", "-i", "a.yaml", "-o", "out.go"}
 			res := work.Run("strace", dir, append(w.SaneEnv(), "PATH=/usr/bin:/bin"), 60*time.Second, nil, args...)
 			after := work.StatFile(out)
@@ -506,6 +508,7 @@ func c10Strace(c *Ctx) error {
 				c.Add("faults_not_hit_or_survived", 1)
 				continue
 			}
+			c.Add("faults_hit:"+in.what+"-"+in.syscall, 1)
 			if top := rep.FailingTop(); top == nil || len(rep.List) != top.Count {
 				c.Violate(fmt.Sprintf("strace:%s-%s:report", in.what, in.syscall), fmt.Sprintf("%+v: failing run without a consistent report\n%s", in, res.Stdout), files)
 			}
@@ -516,6 +519,12 @@ func c10Strace(c *Ctx) error {
 					c.Violate(fmt.Sprintf("strace:%s-%s:failure-changed-output", in.what, in.syscall), fmt.Sprintf("%+v: before=%+v after=%+v", in, before, after), files)
 				}
 			}
+		}
+	}
+	// an injector that never hits decides nothing: every class of fault has to have made at least one run fail
+	for _, cls := range []string{"input-openat", "input-read", "output-openat", "output-write"} {
+		if c.Get("faults_hit:"+cls) == 0 {
+			c.Inconclusive("system-call fault injection never hit for " + cls + " (the tool no longer touches the file through that call, or the path selection does not match)")
 		}
 	}
 	return nil
